@@ -63,7 +63,10 @@ def gmd(U: np.ndarray,
     Q = U.copy()
 
     # 'd' is a vector with the singular values
-    d = np.copy(S)  # We copy here to avoid changing 'S'
+    # We copy here to avoid changing 'S'. The copy is in double precision:
+    # the entries of 'd' become geometric means, which an integer (or a
+    # narrow floating point) array could not hold
+    d = np.array(S, dtype=float)
 
     # l = min(m, n)
     # noinspection PyTypeChecker
@@ -91,7 +94,7 @@ def gmd(U: np.ndarray,
     # underflows to zero) for a few hundred singular values, or for a few
     # tens of them in very large / very small units, and Q, R and P would be
     # filled with nan values.
-    sigma_bar = math.exp(np.mean(np.log(S[0:p])).item())
+    sigma_bar = math.exp(np.mean(np.log(d[0:p])).item())
 
     for k in range(p - 1):
         flag = 0
